@@ -626,4 +626,5 @@ pub fn run(ctx: &Ctx) {
     // (3) clock and sleep
     clock::run(ctx);
     sleep::run(ctx);
+    sleep::run_virtual(ctx);
 }
